@@ -255,13 +255,17 @@ CHECKS['C09'] = ('exploration', 'enum',
 MORE = {
     'C01': ' Added: a frame outside the start directory whose links point back into it '
            '(-r -p --no-parent), responses delivered in pieces, pages with 1005/2003 links '
-           '(storage batches), 70 KB documents.',
+           '(storage batches), 70 KB documents, a site whose pages declare different '
+           '<base href>s or none.',
     'C02': ' Added: redirects of /robots.txt under eight option sets x five codes (only '
            'robots.txt itself is exempt), host names with a root dot and list entries in '
            'other spellings, percent-encoded dot segments, bracket classes in -R, FTP links.',
     'C03': ' Added: kill points after every schema statement (CREATE TABLE / INDEX are '
            'committed one by one), --database-uri, and the resumed run may request no URL '
            'more often than an uninterrupted crawl nor any URL outside its set.',
+    'C05': ' Added: URLs of 1.2 and 5 KB (record header fields stay one line each).',
+    'C06': ' Added: the first append of a --warc-append run (the constructor\'s warcinfo '
+           'record) onto the records of an earlier run.',
     'C09': ' Added: whole crawls with a hostile robots.txt redirect (17 targets x 3 codes), '
            'sitemap bodies (damaged gzip), hostile pages run with --delete-after, with files '
            'and with --convert-links, symbolic-link and scheme-like names in FTP listings, a '
@@ -274,15 +278,18 @@ MORE = {
            'bookkeeping judged before any forced clean(), two-fault jobs.',
     'C13': ' Added: a second process() on a refilled source, falsy work items, and the '
            'Application with all pipelines built by Builder crawling a five-page site with '
-           'Application.stop() delivered at every step.',
+           'Application.stop() delivered at every step, a source that never answers again '
+           'once a stop is requested.',
     'C14': ' Added: property objects without parent/root URL, and a depth-first search on '
            'one live table object (snapshot/restore of the connection) for state that a '
-           'reopen hides.',
+           'reopen hides, batches that name one URL twice with different properties.',
     'C15': ' Added: the 64 --restrict-file-names subsets through the command line, and FTP '
            'listings whose symbolic-link entries carry 17 hostile names '
            '(--retr-symlinks=off), judged on the file system.',
     'C16': ' Added: requests with a body through redirect chains, 17 cookie Domain '
-           'attribute cases between unrelated hosts (by link and by five redirect codes).',
+           'attribute cases between unrelated hosts (by link and by five redirect codes), '
+           'hosts whose IDNA mapping produces a space or a delimiter (every name resolves, '
+           'the Host value must be a host[:port]).',
     'C19': ' Added: a damaged copy of a checksummed (gzip/zlib) stream may decode to the '
            'payload or fail but never to other content, all 256 values of the two sniffed '
            'bytes, zero-length pieces, two bodies on one Stream, coded bodies through '
